@@ -3,7 +3,7 @@ from props.m2common import *  # noqa: F401,F403
 from props.m2common import g, sx, rng_for, fl, close, same, is_err, env_points
 
 PID = "C10"
-KERNELS = ['K_value_at', 'K_env_reads']   # translated from /repo on every run (a read with no statement that writes to self), tied to the model by coq/Gen/<name>_eq.v
+KERNELS = ['K_value_at', 'K_env_reads', 'K_average', 'K_env_chain']   # translated from /repo on every run (a read with no statement that writes to self), tied to the model by coq/Gen/<name>_eq.v
 RUNNER = "impl_m2.py"
 N = {"quick": 1500, "thorough": 40000}
 LEVEL_RULE = ("envelopes (plain and FlexTempo) as C08, 10 % with a curve shape below the 10-digit resolution (4e-11 ...); histories of 1-12 reads over all public reads (value_at, parameter_at, "
